@@ -118,7 +118,7 @@ func runC06(c *Ctx) Result {
 
 	nOps := 3 + g.d(12)
 	for op := 0; op < nOps; op++ {
-		kind := g.d(11)
+		kind := g.d(13)
 		var name string
 		switch kind {
 		case 0, 1, 2: // Marshal / MarshalString / MarshalIndent under option sets
@@ -387,6 +387,29 @@ func runC06(c *Ctx) Result {
 			}
 			nn := n
 			keep(name+" node", func() []byte { s, _ := nn.Raw(); return []byte(s) })
+		case 11: // scans that END IN A SYNTAX ERROR: whatever they return to the pools (state machines, parsers) is what the next calls get
+			doc := g.Container()
+			bad := doc[:g.d(len(doc))]
+			if g.d(3) == 0 {
+				bad = doc[:len(doc)/2] + " x" + doc[len(doc)/2:]
+			}
+			switch g.d(4) {
+			case 0:
+				name = "Valid(malformed)"
+				sonic.Valid([]byte(bad))
+			case 1:
+				name = "Get(malformed)"
+				sonic.Get([]byte(bad), "a", 0)
+			case 2:
+				name = "decoder.Skip(malformed)"
+				decoder.Skip([]byte(bad))
+			default:
+				name = "Unmarshal(malformed)"
+				var v interface{}
+				sonic.UnmarshalString(bad, &v)
+			}
+			hist = append(hist, name)
+			c.inc("fault_failing_scan")
 		default: // stream decode: values returned earlier survive later decodes
 			var sb strings.Builder
 			k := 1 + g.d(4)
